@@ -506,7 +506,7 @@ def main():
             cases.append((cs["name"] + "-history", cs["program"], cp.program_src(cs["program"]), h, None))
         cases.append((cs["name"], cs["program"], cp.program_src(cs["program"]), cs["run"], None))
     else:
-        nprog = int(os.environ.get('VERIF_C13_N', 100 if quick else 900))      # thorough: ~65 000 simulations of ~900 programs (+ families)
+        nprog = int(os.environ.get('VERIF_C13_N', 100 if quick else 700))      # thorough: ~50 000 simulations of ~700 programs (+ families)
         ntab = 24 if quick else 64
         made = 0
         attempts = 0
